@@ -689,6 +689,13 @@ func genCtrlCase(rng *Rng, mode string, cmdOK bool) (ctrlIn, []string) {
 		}
 		in.Hist = append(in.Hist, e)
 	}
+	if mode == "stallmax" || (mode == "recover" && rng.Bool()) {
+		// the rotor turns again and the curve sweeps over its range: the requests must follow the curve
+		for _, v := range []int{0, 40, 90, 128, 200, 255, 128, 0, 255} {
+			in.Hist = append(in.Hist, ctrlEv{T: "poll", Rpm: ctrlPtr(rng.Range(600, 3000))})
+			in.Hist = append(in.Hist, ctrlEv{T: "cycle", Curve: ctrlPtr(v), Dt: int64(rng.Range(50, 2000)) * 1e6, ReadOk: true, WriteOk: true, ModeOk: true})
+		}
+	}
 	return in, tags
 }
 
